@@ -98,7 +98,7 @@ def inventory(P, crates):
                         continue
                     base_t = peel(n["base"].get("adj") or n["base"].get("ty", ""))
                     out.append(PanicSite(b, b["path"], "index", base_t.split("<")[0].rsplit("::", 1)[-1] or "slice",
-                                         show(N.term(n["base"]))[-200:] + "[" + show(N.term(n["idx"]))[:80] + "]", n, n["sp"], ex))
+                                         show(N.elemize(N.term(n["base"]), n))[-200:] + "[" + show(N.term(n["idx"]))[:80] + "]", n, n["sp"], ex))
             # MIR asserts of the fn and of its closures
             mirs = [(b["path"], b.get("mir") or {})]
             for p, cb in c.closures_mir.items():
@@ -115,7 +115,7 @@ def inventory(P, crates):
                     bnode = None
                     if origin == "user" and kind == "Overflow":
                         bnode = next((x for x in walk(b["body"]) if x.get("k") == "Binary" and x.get("sp") == a["sp"]), None)
-                    out.append(PanicSite(b, b["path"], "assert", kind + ":" + _assert_op(a["msg"]), origin + "@" + _line_text(a), bnode, a["sp"], ex))
+                    out.append(PanicSite(b, b["path"], "assert", kind + ":" + _assert_op(a["msg"]), origin + "@" + (show(N.term(bnode))[:200] if bnode is not None else _line_text(a)), bnode, a["sp"], ex))
     return out
 
 
